@@ -25,6 +25,12 @@ def run(ctx):
                 if q and i >= 5 and (k + ctx.seed) % 2 != 0:
                     continue
                 jobs.append('%s/%s/I;%s' % (qc, r, p))
+    # node sizes that share a factor with the index step of ramalhete_queue (11): sequential fill across nodes and drain, and short races
+    seqp = ';;%s,%s' % (','.join('push%d' % i for i in range(1, 15)), ','.join(['pop'] * 15))
+    for qc, r in (('ram110', 'hp3'), ('ram220', 'ebr0')) + (() if q else (('ram110', 'stamp'), ('ram220', 'he3'))):
+        jobs.append('%s/%s/I%s' % (qc, r, seqp))
+        jobs.append('%s/%s/I;push1,push2;push3,pop;pop,push4' % (qc, r))
+        jobs.append('%s/%s/I;;push1,push2,push3;pop,pop' % (qc, r))
     # budgets large enough that the iteratively deepened search completes preemption bound 1 for every program
     run_queues(ctx, jobs, pb=2 if q else 3, max_exec=400 if q else 20000, per_driver={'queue_nik': 1500, 'queue_ram': 700} if q else None)
     if not q:
